@@ -16,7 +16,7 @@ ANCHORS = ['phylib.io.array:_spikes_per_cluster', 'phylib.io.array:_spikes_in_cl
            'phylib.io.model:TemplateModel.get_template_spikes',
            'phylib.io.model:TemplateModel.get_template_counts']
 RULE = ('EVERY cluster-assignment vector of length <= L over the id alphabet {0,2,3,7} (thorough: '
-        '{0,2,3,7,9}) x dtype {int32,int64,uint16,uint32} x {no spike ids, shifted spike ids}, plus every vector of length <= 4 over the sparse large ids {5,70000,123456}; for each: '
+        '{0,2,3,7,9}) x dtype {int32,int64,uint16,uint32} x {no spike ids, shifted spike ids}, plus every vector of length <= 4 over the sparse large ids {5,70000,123456} and over the dtype-boundary ids {0,7,300,65535}; medium vectors with request lists of 18-70 wide-ranged ids; for each: '
         '_spikes_per_cluster, _spikes_in_clusters for subsets of {0,2,3,5,7} in shuffled order (all 32 '
         'for length <= 4, 8 rotating otherwise), _unique, _index_of against an unsorted lookup, '
         '_flatten_per_cluster, grouped_mean (1-D and 2-D values). Judged twice: by the set-theoretic M2 '
@@ -66,7 +66,21 @@ def run_shard(desc, ctx):
                 continue
             for dt in ('int32', 'int64', 'uint32'):
                 run_case({'vec': list(vec), 'dtype': dt, 'shifted': bool(idx % 2), 'rot': idx}, ctx)
+    # dtype boundary ids
+    for n in range(1, 5):
+        for vec in itertools.product([0, 7, 300, 65535], repeat=n):
+            idx += 1
+            if idx % ns != sh:
+                continue
+            for dt in ('uint16', 'int32', 'uint32'):
+                run_case({'vec': list(vec), 'dtype': dt, 'shifted': bool(idx % 2), 'rot': idx}, ctx)
     rng = np.random.default_rng([desc['seed'], sh, 7])
+    # medium vectors with long, wide-ranged request lists (NumPy switches membership algorithms on these)
+    for _ in range((400 if tier == 'quick' else 8000) // ns + 1):
+        n = int(rng.integers(20, 200))
+        ids = np.sort(rng.permutation(5000)[:int(rng.integers(2, 8))])
+        run_case({'rand': [int(desc['seed']), sh, int(_), 77], 'n': n, 'ids': ids.tolist(), 'long_request': True,
+                  'dtype': DTYPES[int(rng.integers(0, 4))], 'shifted': bool(rng.integers(0, 2)), 'rot': _}, ctx)
     for _ in range((200 if tier == 'quick' else 5000) // ns + 1):
         n = int(10 ** rng.uniform(3, 5 if tier == 'thorough' else 4.3))
         k = int(rng.integers(1, 301))
@@ -120,13 +134,19 @@ def run_case(case, ctx):
             if isinstance(spc, dict) else spc), feats)
     # _spikes_in_clusters: sorted union of groups (groups by index, so recompute without ids)
     groups = {c: np.nonzero(sc == c)[0] for c in ids_present}
-    pool5 = POOL if max(ids_present) < 100 else [5, 70000, 9, 123456, 2]
+    pool5 = POOL if max(ids_present) < 100 else ([5, 70000, 9, 123456, 2] if max(ids_present) > 65535 else [0, 7, 65535, 300, 65534])
     subsets = [list(s) for r_ in range(0, 6) for s in itertools.combinations(pool5, r_)]
     if long_ or n > 4:
         subsets = [subsets[(case['rot'] * 5 + j * 7) % len(subsets)] for j in range(8)]
     if long_:
         pool = ids_present + [max(ids_present) + 5]
         subsets = [pool[::3], pool[1::4][::-1], [pool[-1]], []]
+        if case.get('long_request'):
+            r3 = np.random.default_rng(case['rand'])
+            for q in range(3):
+                k = int(r3.integers(18, 70))
+                req = r3.permutation(6000)[:k].tolist() + ids_present[:int(r3.integers(0, len(ids_present) + 1))]
+                subsets.append(req)
     # absent ids outside the range of the vector's dtype must stay absent (no wrap-around)
     p0 = ids_present[0]
     subsets = subsets + [[65536 + p0], [2 ** 32 + p0, ids_present[-1]], [-1], [p0 - 65536, -(2 ** 32) + p0]]
@@ -138,7 +158,7 @@ def run_case(case, ctx):
         if not rr.ok:
             ctx.violation('raised', dict(case, subset=sub), '_spikes_in_clusters raised %r' % rr.exc, feats, tb=rr.tb)
             continue
-        parts = [groups[c] for c in sub if c in groups]
+        parts = [groups[c] for c in sorted(set(sub)) if c in groups]
         exp = np.sort(np.concatenate(parts)) if parts else np.zeros(0, int)
         d = same(rr.value, exp, dtype=False)
         if d:
